@@ -51,6 +51,11 @@ type vrScript struct {
 	CtxPID     *string                           ` + "`json:\"ctx_pid\"`" + `
 	CtxValues  map[string]interface{}            ` + "`json:\"ctx_values\"`" + `
 	Users      map[string]map[string]interface{} ` + "`json:\"users\"`" + `
+	TimeRel    bool                              ` + "`json:\"time_relative\"`" + `
+	StateTimes map[string]struct {
+		Rel    int64  ` + "`json:\"rel\"`" + `
+		Layout string ` + "`json:\"layout\"`" + `
+	} ` + "`json:\"state_times\"`" + `
 	Calls      []vrCall                          ` + "`json:\"calls\"`" + `
 }
 
@@ -68,6 +73,74 @@ type vrState struct {
 	seenC   int
 	nextErr int
 	users   map[*vrUser]string
+	off     int64 // real now - the model's first clock reading (0)
+}
+
+// vrBytes undoes the Latin-1 transport encoding of byte strings.
+func vrBytes(s string) string {
+	b := make([]byte, 0, len(s))
+	for _, r := range s {
+		b = append(b, byte(r))
+	}
+	return string(b)
+}
+
+func vrFix(v interface{}) interface{} {
+	switch x := v.(type) {
+	case string:
+		return vrBytes(x)
+	case map[string]interface{}:
+		for k, e := range x {
+			x[k] = vrFix(e)
+		}
+		return x
+	case []interface{}:
+		for i, e := range x {
+			x[i] = vrFix(e)
+		}
+		return x
+	}
+	return v
+}
+
+func (s *vrState) fixScript() {
+	sc := &s.script
+	sc.Request.Method, sc.Request.Path, sc.Request.RawQuery = vrBytes(sc.Request.Method), vrBytes(sc.Request.Path), vrBytes(sc.Request.RawQuery)
+	for k, v := range sc.Request.Form {
+		sc.Request.Form[k] = vrBytes(v)
+	}
+	for k, v := range sc.Session {
+		sc.Session[k] = vrBytes(v)
+	}
+	for k, v := range sc.Cookie {
+		sc.Cookie[k] = vrBytes(v)
+	}
+	if sc.CtxPID != nil {
+		p := vrBytes(*sc.CtxPID)
+		sc.CtxPID = &p
+	}
+	vrFix(sc.CtxValues)
+	for _, u := range sc.Users {
+		vrFix(u)
+	}
+	for i := range sc.Calls {
+		vrFix(sc.Calls[i].Res)
+	}
+	if sc.TimeRel {
+		s.off = time.Now().UnixNano()
+	}
+	for k, tv := range sc.StateTimes {
+		lay := tv.Layout
+		if lay == "" {
+			lay = time.RFC3339
+		}
+		val := time.Unix(0, tv.Rel+s.off).UTC().Format(lay)
+		if strings.HasPrefix(k, "cookie:") {
+			sc.Cookie[strings.TrimPrefix(k, "cookie:")] = val
+		} else {
+			sc.Session[strings.TrimPrefix(k, "session:")] = val
+		}
+	}
 }
 
 func (s *vrState) flush() {
@@ -144,14 +217,15 @@ func vrErrName(e error) interface{} {
 // ---- user records (copy on load / snapshot on save) -------------------------
 
 type vrUser struct {
-	F map[string]interface{}
+	F   map[string]interface{}
+	off int64
 }
 
 func (s *vrState) user(id string) *vrUser {
 	if id == "" || id == "0" {
 		return nil
 	}
-	u := &vrUser{F: map[string]interface{}{}}
+	u := &vrUser{F: map[string]interface{}{}, off: s.off}
 	for k, v := range s.script.Users[id] {
 		u.F[k] = v
 	}
@@ -181,7 +255,10 @@ func (u *vrUser) tm(k string) time.Time {
 	case time.Time:
 		return v
 	case float64:
-		return time.Unix(0, int64(v)).UTC()
+		if v < -9e18 {
+			return time.Time{} // the zero instant
+		}
+		return time.Unix(0, int64(v)+u.off).UTC()
 	}
 	return time.Time{}
 }
@@ -467,6 +544,7 @@ func TestVerifReplay(t *testing.T) {
 	if err := json.Unmarshal([]byte(vrScriptJSON), &st.script); err != nil {
 		t.Fatal(err)
 	}
+	st.fixScript()
 	ab := %ABQ%New()
 	ab.Config.Storage.Server = vrStorer{st}
 	ab.Config.Storage.SessionState = vrStateRW{s: st, state: st.script.Session, has: st.script.HasSession, name: "session"}
